@@ -266,6 +266,9 @@ type Exec struct {
 	sharedLens   map[string]int64
 	sharedRegs   map[string]*Region
 	sharedRegMu  sync.Mutex
+	// equivalence proofs: callees are the same deterministic (uninterpreted) function on both sides
+	equivCalls map[string]string // callee key -> canonical name
+	structTables map[string]*TableV
 }
 
 // SpecHook lets a proof driver add hypotheses when the path reads input bytes or jumps.
@@ -447,8 +450,14 @@ func (ex *Exec) load(st *State, p Place) Value {
 			panic(fmt.Sprintf("load from unknown root %T %v", p.Root, p.Root))
 		}
 	}
-	for _, e := range p.Path {
+	for pi, e := range p.Path {
 		switch x := v.(type) {
+		case *TableV:
+			// row of a shared struct table: the next path element selects the field
+			if e.Index != nil && pi+1 < len(p.Path) && p.Path[pi+1].Index == nil {
+				return ex.tableField(st, x, e.Index, p.Path[pi+1].Field)
+			}
+			return &OpaqueV{T: nil, Name: "tbl." + x.Name + ".row"}
 		case *StructV:
 			v = x.Fields[e.Field]
 		case *ArrayV:
@@ -603,7 +612,21 @@ func (ex *Exec) execInstr(st *State, ins ssa.Instruction) []*State {
 	case *ssa.ChangeType:
 		st.regs[i] = ex.val(st, i.X)
 	case *ssa.ChangeInterface:
-		st.regs[i] = ex.val(st, i.X)
+		v := ex.val(st, i.X)
+		if t, ok := v.(*Term); ok {
+			// error <-> interface{}: the two interface kinds have different sorts in the VC language
+			switch {
+			case t.Sort == ErrSort && !isErrorType(i.Type()):
+				f := App("iface.of.err", IfaceSort, t)
+				st.assume(Eq(Eq(f, NilIface), Eq(t, NilErr)))
+				v = f
+			case t.Sort == IfaceSort && isErrorType(i.Type()):
+				f := App("err.of.iface", ErrSort, t)
+				st.assume(Eq(Eq(f, NilErr), Eq(t, NilIface)))
+				v = f
+			}
+		}
+		st.regs[i] = v
 	case *ssa.MakeInterface:
 		st.regs[i] = ex.makeInterface(st, i)
 	case *ssa.Extract:
